@@ -484,7 +484,9 @@ def reader(ctx, F):
             t = {}
             for a in n["arms"]:
                 pk = hir.pat_key(a["pat"])
-                b = hir.strip(a["body"])
+                # the one castling setter the arm calls (directly, or as the body of an expanded `grant(right)`)
+                cs = [c for c, _ in hir.walk(a["body"]) if c.get("k") == "MethodCall" and "castling" in (hir.callee_of(c) or c["name"])]
+                b = cs[0] if len(cs) == 1 else {}
                 if isinstance(pk, tuple) and pk[0] == "lit" and b.get("k") == "MethodCall" and "castling" in (hir.callee_of(b) or b["name"]):
                     t[pk[1]] = (hir.callee_of(b) or b["name"]).rsplit("::", 1)[-1]      # resolved (anchor) name, not the spelling
             if t:
